@@ -300,6 +300,42 @@ def one_workbook(ctx, spec, meta, order, config='mem', rng=None):
             ctx.violation(k, msg, case)
 
 
+def side_branch_after_trim(ctx):
+    """directed: trim_graph keeps every dependant of an input with its formula, also one that is not an output and
+    whose other precedents it removes from the model; evaluated again after a write to the input, that formula reads
+    those precedents - which need their edges then like at any other time"""
+    install()
+    for variant in range(3):
+        cells = {'A1': 1, 'B1': 2, 'B2': '=B1*3', 'C1': '=A1+1', 'D1': ('=A1+B1+B2', '=A1+SUM(B1:B2)', '=IF(A1>3,B2,B1)+A1')[variant]}
+        spec = {'sheets': [['Sheet1', cells]], 'names': {}, 'arrays': [], 'calc': None}
+        meta = {'inputs': ['Sheet1!A1', 'Sheet1!B1'], 'order': [f'Sheet1!{c}' for c in cells],
+                'formulas': {'Sheet1!B2': {'form': 'arith', 'deps': ['Sheet1!B1']}, 'Sheet1!C1': {'form': 'arith', 'deps': ['Sheet1!A1']},
+                             'Sheet1!D1': {'form': 'arith', 'deps': ['Sheet1!A1', 'Sheet1!B1', 'Sheet1!B2']}}}
+        comp = wb.compile_mem(spec)
+        STATE.update(ctx=ctx, meta=meta, spec=spec, found=[], reads=set(), comp=comp)
+        case = {'kind': 'side-branch-after-trim'}
+        ctx.count('directed:side_branch_after_trim')
+        ctx.case(('side-branch-after-trim', variant))
+        try:
+            for a in ('Sheet1!C1', 'Sheet1!D1'):
+                comp.evaluate(a)
+            comp.trim_graph(['Sheet1!A1'], ['Sheet1!C1'])
+            comp.set_value('Sheet1!A1', 5)
+            STATE['reads'] = set()
+            got = wb.outcome(comp.evaluate, 'Sheet1!D1')
+        except Exception as exc:
+            if not wb.raised_outside_harness(exc):
+                raise
+            ctx.violation('side-branch-after-trim/raises', wb.describe(exc), case)
+            continue
+        finally:
+            STATE['comp'] = None
+        found = list(STATE['found']) + (check_read_edges(ctx, comp) if got[0] == 'v' else [])
+        for key, msg, x in found[:1]:
+            ctx.violation(key + '/side-branch-after-trim', msg + f' [D1 = {cells["D1"]}, after trim_graph([A1], [C1]) and '
+                          f'set_value(A1, 5): evaluate(D1) = {got!r}]', case)
+
+
 def range_operator_workbook():
     """the range operator between two written references, one of them in parentheses: the rectangle it names covers
     cells that neither operand holds"""
@@ -326,6 +362,8 @@ def run(ctx):
         suiteload.run_suite(ctx)
     rng = ctx.rng
     i = 0
+    if ctx.shard == 1 % ctx.nshards:
+        side_branch_after_trim(ctx)
     if ctx.shard == 0:
         import random
         spec, meta = range_operator_workbook()
@@ -381,6 +419,9 @@ def run(ctx):
 
 
 def replay(ctx, case):
+    if case.get('kind') == 'side-branch-after-trim':
+        side_branch_after_trim(ctx)
+        return
     if case.get('kind') == 'suite':
         from vp import suiteload
         suiteload.run_suite(ctx)
